@@ -102,6 +102,10 @@ class Check:
         for rid in self.order:
             r = self.rules[rid]
             n = len(r['keys'])
+            if n < r['floor'] and self.violations:
+                # a violation is reported anyway; the thin rule is noted (it usually is a consequence of the same edit)
+                self.notes.append(f'rule {rid} matched {n} instance(s), below its floor {r["floor"]}')
+                continue
             if n < r['floor']:
                 raise AnalysisBroken(
                     f'rule {rid} matched {n} instance(s), below the floor {r["floor"]} confirmed by hand '
@@ -126,6 +130,8 @@ class Check:
         for rid in self.order:
             r = self.rules[rid]
             print(f'[{self.pid}]   rule {rid}: {len(r["keys"])} instance(s), {r["bad"]} failing  -- {r["desc"]}')
+        for fid, why in getattr(self.F, 'unanalysed_factories', []) or []:
+            self.notes.append(f'new factory not analysed (outside the evaluator language, not in the confirmed table): {fid}: {why}')
         for n in self.notes:
             print(f'[{self.pid}]   note: {n}')
         for v, k in listed:
@@ -150,15 +156,19 @@ class Check:
             res = controlsmod.run_controls(self.pid)
             self.extra['controls'] = res
             fired = [r for r in res if r['verdict'] == 'fired']
-            missed = [r for r in res if r['verdict'] == 'missed']
-            stale = [r for r in res if r['verdict'] not in ('fired', 'missed')]
-            print(f'[{self.pid}]   controls: {len(fired)} fired, {len(missed)} missed, {len(stale)} stale/skipped '
-                  f'(seeded violations applied to a scratch copy of the repository)')
+            quiet = [r for r in res if r['verdict'] == 'quiet']
+            missed = [r for r in res if r['verdict'] in ('missed', 'false-alarm')]
+            stale = [r for r in res if r['verdict'] not in ('fired', 'missed', 'quiet', 'false-alarm')]
+            print(f'[{self.pid}]   controls: {len(fired)} seeded violation(s) fired, {len(quiet)} behaviour-preserving change(s) stayed quiet, '
+                  f'{len(missed)} wrong, {len(stale)} stale/skipped (each applied to a scratch copy of the repository)')
             for r in missed:
-                print(f'[{self.pid}]   CONTROL MISSED: {r["name"]} (expected rule {r["expect"]}) -> the checker is broken')
+                if r['verdict'] == 'false-alarm':
+                    print(f'[{self.pid}]   CONTROL FALSE ALARM: {r["name"]}: {r.get("why")} -> the checker is broken')
+                else:
+                    print(f'[{self.pid}]   CONTROL MISSED: {r["name"]} (expected rule {r["expect"]}) -> the checker is broken')
             if missed:
                 self._write_evidence(time.time() - self.t0, total, distinct, unlisted, listed)
-                print(f'[{self.pid}] ANALYSIS BROKEN (exit 2): a seeded violation is no longer detected')
+                print(f'[{self.pid}] ANALYSIS BROKEN (exit 2): a seeded violation is no longer detected, or a behaviour-preserving change is reported')
                 return 2
             wall = time.time() - self.t0
         self._write_evidence(wall, total, distinct, unlisted, listed)
